@@ -73,6 +73,10 @@ def st_determinism(props, nseeds, seed=None):
             variants[label] = [d for r in res for d in r]
         # one more batch computed by a single worker (different worker count), same hash seed
         variants["jobs1-same"] = _child(prop, seed, 0, min(nseeds, 24), own)
+        # and a fresh interpreter PER RUN (each run is the first thing its process does: catches lazy first-use effects)
+        nfe = min(nseeds, 16)
+        fe = runner.pmap(_task, [(prop, seed, i, i + 1, own) for i in range(nfe)], wall_cap=3000)
+        variants["fresh-each"] = [d for r in fe for d in r]
         ref = variants["inproc-a"]
         bad = []
         for label, v in variants.items():
